@@ -160,11 +160,34 @@ def build():
     import yowsup.layers.noise.layer as NM
     locks = {}
 
+    class RecEvent(object):
+        """an event object created by a layer: waiting for it when nobody is going to set it is the wedge"""
+
+        def __init__(self_):
+            self_.flag = False
+
+        def set(self_):
+            self_.flag = True
+
+        def clear(self_):
+            self_.flag = False
+
+        def is_set(self_):
+            return self_.flag
+
+        def wait(self_, timeout=None):
+            if not self_.flag and timeout is None:
+                raise WouldBlock("waits without a time limit for an event that nothing in this history is going to set")
+            return self_.flag
+
     class FakeThreading(object):
         def Lock(self_):
             l = RecLock("lock#%d" % (len(locks) + 1))
             locks[l.name] = l
             return l
+
+        def Event(self_):
+            return RecEvent()
 
         def __getattr__(self_, n):
             return getattr(threading, n)
@@ -211,7 +234,7 @@ def _seg(frame):
     return bytes([(n >> 16) & 255, (n >> 8) & 255, n & 255]) + frame
 
 
-DOWN_FAULTS = ("unencodable-value", "oversize-frame", "no-transport-session", "socket-write-fails", "interrupted-during-socket-write", "connection-found-dead-during-write")
+DOWN_FAULTS = ("unencodable-value", "oversize-frame", "no-transport-session", "send-while-the-handshake-is-in-progress", "socket-write-fails", "interrupted-during-socket-write", "connection-found-dead-during-write")
 SILENT = ("connection-found-dead-during-write",)          # the caller sees no exception: the disconnect is announced by an event instead
 UP_FAULTS = ("undecryptable-frame", "undecodable-frame", "rejected-stanza", "application-callback-raises", "key-request-for-incoming-message-fails-below",
              "incoming-frame-while-session-not-ready", "application-callback-raises-on-keepalive-pong")
@@ -271,6 +294,13 @@ def _inject_fault(ctx, kind, st, insts, disp, net, noise, top):
                 top.toLower(_good_entity())
             finally:
                 noise._wa_noiseprotocol.ready = True
+        elif kind == "send-while-the-handshake-is-in-progress":
+            # the session is not ready because a handshake is running (and, as far as this history goes, never finishes in an orderly way)
+            noise._wa_noiseprotocol.ready, noise._wa_noiseprotocol.state = False, "handshake"
+            try:
+                top.toLower(_good_entity())
+            finally:
+                noise._wa_noiseprotocol.ready, noise._wa_noiseprotocol.state = True, "transport"
         elif kind == "socket-write-fails":
             disp.fail_next = OSError(32, "Broken pipe")
             top.toLower(_good_entity())
@@ -534,13 +564,15 @@ def h_two_flushers(ctx):
     return obs
 
 
-def h_reconnect(ctx, n):
+def h_reconnect(ctx, n, prefix=()):
     """'also after a reconnect': the real network layer and asyncore dispatcher over a socket double; after any failure of a connection or of
     a connect attempt (refused at once, failing later, handler raising, peer closing) a later connect request opens a new connection, and
     the failure was reported (exception to the caller or a down announcement)"""
     from checks import c16
     obs = c16.h_network(ctx, n)
-    return [(l, o) for l, o in obs if "opens a new socket" in l or "reported to the caller" in l or "no exception" in l or "announced down" in l or "connected flag" in l]
+    # "later sends, also after a reconnect, are processed normally": what arrives at the new connection's peer is what was sent on it
+    return [(l, o) for l, o in obs if "opens a new socket" in l or "reported to the caller" in l or "no exception" in l or "announced down" in l or "connected flag" in l
+            or "peer of connection" in l or "drains" in l]
 
 
 def finding_key(case, label, values, where):
@@ -558,4 +590,5 @@ def cases(tier):
     n_ops = 3 if tier == "quick" else 5
     return [dict(name="fault[%s,ops=%d]" % (k, n_ops), fn=h_fault, args=(k, n_ops), keep_samples=12) for k in DOWN_FAULTS + UP_FAULTS] + \
            [dict(name="two-flushers[handshake worker + network thread, one pre-emption]", fn=h_two_flushers, keep_samples=40),
-            dict(name="reconnect[real network layer and dispatcher,len<=%d]" % (4 if tier == "quick" else 6), fn=h_reconnect, args=(4 if tier == "quick" else 6,), max_paths=400000, timeout_s=900)]
+            dict(name="reconnect[real network layer and dispatcher,len<=%d]" % (4 if tier == "quick" else 6), fn=h_reconnect, args=(4 if tier == "quick" else 6,), max_paths=400000, timeout_s=900),
+            dict(name="reconnect[after a send that met back-pressure,len<=6]", fn=h_reconnect, args=(6, ("connect-request", "connect-completes", "send")), max_paths=400000, timeout_s=900)]
